@@ -20,6 +20,7 @@ import sys
 import time
 
 ROOT = os.path.dirname(os.path.abspath(__file__))
+TIER = "quick"
 REPO = os.environ.get("VERIF_REPO", "/repo")
 MODULE = "github.com/consensys/gnark-crypto"
 GOSMT = os.path.join(ROOT, "bin", "gosmt")
@@ -31,7 +32,7 @@ sys.path.insert(0, ROOT)
 
 class Job:
     def __init__(self, pkg, templates, params=None, only=None, tier="quick", solver="z3a2:10000,cvc5:20000,z3new:30000", tags="purego",
-                 timeout_ms=60000, jobs=4, cross=None, label=None):
+                 timeout_ms=60000, jobs=4, cross=None, label=None, skip_quick=None):
         self.pkg = pkg                # import path relative to module, e.g. "ecc/bn254/fr"
         self.templates = templates    # list of template paths relative to /verif/harness
         self.params = params or {}
@@ -43,6 +44,7 @@ class Job:
         self.jobs = jobs
         self.cross = cross
         self.label = label or pkg
+        self.skip_quick = skip_quick  # regexp of harness names left to the thorough tier for this package
 
 
 def render(path, params):
@@ -81,6 +83,7 @@ def prepare(prop, idx, job):
     nat = os.path.join(wd, "prelude_native.go")
     open(nat, "w").write(render(os.path.join(ROOT, "harness", "prelude_native.go.tmpl"), params))
     harness_names = []
+    thorough_only = []
     hfiles = []
     nfiles = []
     for k, t in enumerate(job.templates):
@@ -89,6 +92,9 @@ def prepare(prop, idx, job):
         open(hp, "w").write(src)
         hfiles.append(hp)
         harness_names += re.findall(r"^func (H_\w+)\(\)", src, re.M)
+        # harnesses marked tier=thorough in their //verif:harness line are skipped by the quick tier
+        for m in re.finditer(r"^//verif:harness[^\n]*\btier=thorough\b[^\n]*\n(?://[^\n]*\n)*func (H_\w+)\(\)", src, re.M):
+            thorough_only.append(m.group(1))
         # a template may have a native twin (x.native.go.tmpl) used for the replay build
         nt = os.path.join(ROOT, "harness", t.replace(".go.tmpl", ".native.go.tmpl"))
         if os.path.exists(nt):
@@ -101,7 +107,7 @@ def prepare(prop, idx, job):
     rp["HarnessMap"] = "\n".join('\t"%s": %s,' % (h, h) for h in harness_names)
     rt = os.path.join(wd, "replay_test.go")
     open(rt, "w").write(render(os.path.join(ROOT, "harness", "replay_test.go.tmpl"), rp))
-    files.update(wd=wd, sym=sym, nat=nat, hfiles=hfiles, nfiles=nfiles, replay_test=rt, pkgdir=pkgdir, harnesses=harness_names)
+    files.update(wd=wd, sym=sym, nat=nat, hfiles=hfiles, nfiles=nfiles, thorough_only=thorough_only, replay_test=rt, pkgdir=pkgdir, harnesses=harness_names)
     return files
 
 
@@ -113,6 +119,10 @@ def run_gosmt(prop, idx, job, files, only, extra_args=()):
     cmd = [GOSMT, "-dir", REPO, "-pkg", MODULE + "/" + job.pkg, "-overlay", ",".join(ov), "-tags", job.tags,
            "-solver", job.solver, "-j", str(job.jobs), "-out", out, "-timeout", str(job.timeout_ms)]
     o = only or job.only
+    if not o and TIER != "thorough" and (files.get("thorough_only") or job.skip_quick):
+        keep = [h for h in files["harnesses"] if h not in files["thorough_only"]
+                and not (job.skip_quick and re.search(job.skip_quick, h))]
+        o = "^(" + "|".join(keep) + ")$"
     if o:
         cmd += ["-only", o]
     if job.cross:
@@ -262,6 +272,8 @@ def main():
     ap.add_argument("-v", action="store_true")
     args = ap.parse_args()
     import checks
+    global TIER
+    TIER = args.tier
     prop = args.prop
     spec = checks.PROPS[prop]
     jobs = [j for j in spec["jobs"] if j.tier == "quick" or args.tier == "thorough"]
